@@ -164,7 +164,7 @@ def run(seed=0, tier="quick"):
         reqs.append(model(dim, shape, dx, shift, kernel, pos, u, E0, F))
         impls.append(im)
         meta.append({"dim": dim, "kernel": kernel, "dtype": real_t.__name__, "grid": list(shape), "dx": float(dx), "shift": float(shift),
-                     "markers": n, "kinds": sorted(set(kinds)), "pos": pos, "u": u, "F": F, "E0": E0})
+                     "markers": n, "kinds": sorted(set(kinds)), "pos": pos, "u": u, "F": F, "E0": E0, "uvec": uvec, "Fvec": Fvec, "E0vec": E0vec})
     p = subprocess.run(["lake", "env", "lean", "--run", "SophtVerif/Driver/Interp.lean"], cwd=harness.LEAN, input="".join(reqs),
                        capture_output=True, text=True, timeout=1800)
     if p.returncode != 0:
@@ -196,6 +196,24 @@ def run(seed=0, tier="quick"):
             d = np.abs(np.asarray(a, dtype=np.float64) - b)
             if d.max() > 5e4 * eps * scale:
                 res.update(ok=False, detail=f"{_lab(me)}: {name} differs by {d.max():.3e} (scale {scale:.3e})", failing_case=_lab(me))
+                return res
+        # vector variants: every component uses the SAME window and weights as the (modelled) scalar kernels — evaluated with
+        # the model's dense weight maps
+        W = np.array([np.asarray(mo["wmap"][m], dtype=np.float64) for m in range(me["markers"])])      # (markers, cells)
+        vol = me["dx"] ** dim
+        uvec, Fvec, E0vec = me["uvec"], me["Fvec"], me["E0vec"]
+        for c in range(dim):
+            want_i = vol * (W @ np.asarray(uvec[c], dtype=np.float64).ravel())
+            d = np.abs(np.asarray(im["interp_vec"][c], dtype=np.float64) - want_i)
+            if d.max() > 5e4 * eps * max(np.abs(uvec).max(), 1e-30):
+                res.update(ok=False, detail=f"{_lab(me)}: vector interpolation, component {c}, differs from the model's weights applied to that component by {d.max():.3e}",
+                           failing_case={**_lab(me), "variant": "vector_interpolation", "component": c})
+                return res
+            want_s = np.asarray(E0vec[c], dtype=np.float64).ravel() + np.asarray(Fvec[c], dtype=np.float64) @ W
+            d = np.abs(np.asarray(im["spread_vec"][c], dtype=np.float64).ravel() - want_s)
+            if d.max() > 5e4 * eps * (np.abs(E0vec).max() + np.abs(Fvec).max() * wscale):
+                res.update(ok=False, detail=f"{_lab(me)}: vector spreading, component {c}, differs from the model's weights applied to that component by {d.max():.3e}",
+                           failing_case={**_lab(me), "variant": "vector_spreading", "component": c})
                 return res
         res["cases"] += 1
         if len(res["samples"]) < 3:
